@@ -567,11 +567,19 @@ def _rand_valid(rng, sl=None, ql=None):
 #      histories meaningful and by the oracle to judge every step on the implementation's own answers)
 def hdr_expect(st, l):
     """st = {"hd": [type, meta, dlen], "ids": [...6], "flags": [...5]} -> (state afterwards, verdict)
-    verdict: "ok" (must succeed), "refuse" (must raise ValueError, nothing changes), "any" (either)"""
+    verdict: "ok" (must succeed), "refuse" (must raise ValueError, nothing changes), "any": the property leaves it open.
+    For pack that means no claim; for an ASSIGNMENT it means that the value lies outside the property's domain (a flag /
+    PDU type outside its enum, a negative length, source and destination IDs left with different widths): the unchanged
+    library stores it and pack() refuses or has no defined output; a library that refuses the assignment itself with
+    ValueError and stays as it was (the caller of hdr_expect then keeps st) is as good."""
     n = {"hd": list(st["hd"]), "ids": list(st["ids"]), "flags": list(st["flags"])}
     k = l[0]
-    if k == 1: n["hd"][0] = l[1]
-    elif k == 2: n["hd"][1] = l[1]
+    if k == 1:
+        n["hd"][0] = l[1]
+        if l[1] not in (0, 1): return n, "any"
+    elif k == 2:
+        n["hd"][1] = l[1]
+        if l[1] not in (0, 1): return n, "any"
     elif k == 3:
         if l[1] > 65535: return st, "refuse"
         n["hd"][2] = l[1]
@@ -579,11 +587,14 @@ def hdr_expect(st, l):
     elif k == 4:
         if not (ubf_ok(l[1], l[2]) and ubf_ok(l[3], l[4])) or l[2] != l[4]: return st, "refuse"
         n["ids"][0:4] = l[1:5]
+        if l[2] == 0: return n, "any"            # no header has IDs of width 0
     elif k == 5:
         if not ubf_ok(l[1], l[2]): return st, "refuse"
         n["ids"][4:6] = l[1:3]
+        if l[2] == 0: return n, "any"
     elif 6 <= k <= 10:
         n["flags"][{6: 1, 7: 2, 8: 0, 9: 3, 10: 4}[k]] = l[1]
+        if l[1] not in (0, 1): return n, "any"
     elif k == 11:
         w = st["ids"][2 * l[1] + 1]
         if not 0 <= l[2] < 256 ** w: return st, "refuse"
@@ -596,10 +607,12 @@ def hdr_expect(st, l):
     elif k == 13:
         if not ubf_ok(l[2], l[3]): return st, "refuse"
         n["ids"][2 * l[1]:2 * l[1] + 2] = l[2:4]
+        if l[3] == 0 or n["ids"][1] != n["ids"][3]: return n, "any"    # a configuration no header can be packed from
     elif k == 14:
         ids, flags = l[1:7], l[7:12]
         if not (ubf_ok(ids[0], ids[1]) and ubf_ok(ids[2], ids[3]) and ubf_ok(ids[4], ids[5])): return st, "refuse"
         n["ids"], n["flags"] = list(ids), list(flags)
+        if not (all(f in (0, 1) for f in flags) and ids[1] == ids[3] and ids[1] in WIDTHS and ids[5] in WIDTHS): return n, "any"
     elif k in (15, 16):
         return st, ("ok" if k == 16 or valid_args(st["ids"], st["flags"], st["hd"]) else "any")
     return n, "ok"
@@ -1024,6 +1037,9 @@ def check_hdr_history(st, steps, ops, what="PduHeader"):
                 return st, ("C05/PduHeader.history/undocumented-error", "%s raised %s" % (where, core.ERR_NAMES.get(status[1], status[1])))
             if verdict == "ok":
                 return st, ("C05/PduHeader.history/refuses-valid", "%s was refused" % where)
+            if verdict == "any" and l[0] not in (15, 16) and status[1] != core.E_VALUE:
+                return st, ("C05/PduHeader.history/out-of-domain-value-error-class", "%s (a value outside the domain) was refused with %s, not with ValueError" % (
+                    where, core.ERR_NAMES.get(status[1], status[1])))
             r = check_hdr_state(st, flat, idoct, where + " (refused)")
             if r:
                 return st, ("C05/PduHeader.history/refused-op-changed-state", r[1])
@@ -1101,7 +1117,9 @@ def oracle(case, ires, sres):
             if kind == 1: ids, flags = [0, 1, 0, 1, 0, 1], [0, 0, 0, 0, 0]
             if kind == 2: ids, flags = [0, 0, 0, 0, 0, 0], [0, 0, 0, 0, 0]
             if err:
-                if all(ubf_ok(ids[i], ids[i + 1]) for i in (0, 2, 4)) and ids[1] == ids[3] and hd[2] <= 65535:
+                # (IDs of width 0 -- PduConfig.empty() -- are not a header the property speaks about: a constructor may refuse them)
+                if valid_args(ids, flags, hd) or (code not in VALUE_CODES and all(ubf_ok(ids[i], ids[i + 1]) for i in (0, 2, 4))
+                                                  and ids[1] == ids[3] and hd[2] <= 65535):
                     return ("C05/PduHeader/refuses-valid", "constructor refused %s: %s" % (a[:4], ires))
                 return None
             st = {"hd": list(hd), "ids": list(ids), "flags": list(flags)}
@@ -1199,6 +1217,9 @@ def oracle(case, ires, sres):
     if op == 1205:
         ids = a[0]
         if ubf_ok(ids[0], ids[1]) and ubf_ok(ids[2], ids[3]) and ubf_ok(ids[4], ids[5]):
+            if err and code in VALUE_CODES and not valid_args(ids, a[1], [0, 0, 0]):
+                return None     # IDs of different widths / of width 0 / a flag outside its enum: no header has such a
+                #                 configuration; PduConfig may refuse to be built (the unchanged one is a plain record)
             if err or ires[1] != [4 + ids[1] + ids[3] + ids[5]]:
                 return ("C05/PduConfig.header_len", "%s -> %s" % (ids, ires))
         return None
